@@ -66,17 +66,18 @@ func (vc *VC) envHere(st *state) *specEnv {
 	// outer loops first so that inner loops shadow
 	// every loop whose header dominates the current block: its variables are defined here, also in blocks
 	// that leave the loop (error exits) and are therefore not part of the natural loop
+	cur := vc.outerBlock() // inside an inlined helper: the block of the call site
 	for _, li := range vc.loopList {
-		if (li.header == vc.cur || li.header.Dominates(vc.cur)) && len(li.phiVals) > 0 && !li.blocks[vc.cur] {
+		if (li.header == cur || li.header.Dominates(cur)) && len(li.phiVals) > 0 && !li.blocks[cur] {
 			vc.bindLoopVars(env, li, li.phiVals)
 		}
 	}
 	for _, li := range vc.loopList {
-		if li.blocks[vc.cur] && len(li.phiVals) > 0 {
+		if li.blocks[cur] && len(li.phiVals) > 0 {
 			vc.bindLoopVars(env, li, li.phiVals)
 		}
 	}
-	if li := vc.loopOf(vc.cur); li != nil && len(li.phiVals) > 0 {
+	if li := vc.loopOf(cur); li != nil && len(li.phiVals) > 0 {
 		vc.bindLoopVars(env, li, li.phiVals)
 	}
 	return env
@@ -238,13 +239,17 @@ func (vc *VC) trIdent(e *EIdent, env *specEnv, c *Clause) sval {
 		best := -1
 		bestDepth := -1
 		for i, r := range refs {
-			if !(vc.cur == nil || r.b == vc.cur || r.b.Dominates(vc.cur)) {
+			inForce, level := vc.dominatesHere(r.b)
+			if !inForce {
 				continue
 			}
 			if _, isTuple := r.v.Type().(*types.Tuple); isTuple {
 				continue
 			}
-			d := domDepth(r.b)
+			if _, live := vc.vals[r.v]; !live && r.b.Parent() != vc.fn {
+				continue // value of an inlined instance that has ended
+			}
+			d := level*100000 + domDepth(r.b)
 			if d > bestDepth || (d == bestDepth && i > best) {
 				best, bestDepth = i, d
 			}
